@@ -23,7 +23,7 @@ ASSUMPTIONS = [
     "strtoul(s,NULL,16) on the 4-byte \\u accumulator = AslModel.Xdl.strtoul16 (white space, sign, 0x prefix; exercised by K incl. non-hex bytes)",
     "wchar_t is a signed 32-bit integer (Linux)",
     "String/Array/Var/Dic container semantics (C01-C04) for the token buffer, the stacks and the result value",
-    "stack depth: closing N nested containers recurses N deep in ~Var (generator keeps nesting <= 3000)",
+    "XDL_MAX_DEPTH = 1000 (model: maxDepth) bounds the nesting, hence the recursion depth of ~Var on the result",
 ]
 TECHNIQUE = "Lean 4 theorems (invariant induction over all byte strings, grammar induction) + differential correspondence check under ASan + python3 json oracle"
 
@@ -296,10 +296,14 @@ def gen(rng, tier):
               b"123456789", b"1234567890", b"-12345678", b"-123456789", b'"\\ud83d\\ude00"', b'{"":0}', b'{"a":{"a":{}}}', b"[[[[]]]]"]:
         docs.append(t)
         cases.append(ops_for(rng, t, 300, 300))
-    for d in ([1, 2, 31, 100, 511, 512] if quick else [1, 2, 3, 31, 64, 100, 255, 256, 400, 511, 512, 513, 1000, 3000]):
+    for d in ([1, 2, 31, 100, 511, 512] if quick else [1, 2, 3, 31, 64, 100, 255, 256, 400, 511, 512, 513, 999, 1000, 1001, 1002, 3000]):
         t = gen_deep(rng, d)
         docs.append(t)
         cases.append(ops_for(rng, t, 0, 6))
+    # the nesting limit (XDL_MAX_DEPTH) and far beyond it
+    for d in ([512, 999, 1000, 1001, 5000, 150000] if quick else [512, 998, 999, 1000, 1001, 1002, 2000, 20000, 150000, 400000, 1000000]):
+        a, m, b = rng.choice([(b"[", b"", b"]"), (b'{"k":', b"1", b"}"), (b'[{"a":', b"null", b"}]"), (b" [ ", b"-1.5", b" ]\n")])
+        cases.append(["nest %d %s %s %s" % (d, hexs(a), hexs(m), hexs(b))])
     xdocs = []
     for i in range(400 * N):
         t = ws(rng, 0.2) + gen_xdl(rng, 0, rng.choice([1, 2, 3, 4])) + rng.choice([b"", b"\n", b" ", b" //c", b" //c\n", b"/*c*/"])
@@ -443,6 +447,12 @@ def reference(line):
             if isinstance(v, (list, str)) or (isinstance(v, tuple) and v[0] == "obj"):
                 return "none"                    # stops before the final closing character
             return None
+        if t[0] == "nest" and len(t) == 5:
+            n = int(t[1])
+            if n > 600:
+                return None
+            r = py_expect(unhex(t[2]) * n + unhex(t[3]) + unhex(t[4]) * n)
+            return r[1] if r else None
         if t[0] == "chunks" and len(t) >= 2:
             return None                          # judged by chunk_oracle (needs the flags)
     except Exception:
